@@ -339,7 +339,7 @@ def evaluate(m, o, twins):
     elif any(x < 0 for x in o["orphans"]):
         signal_evidence = f"background child died by signal {[x for x in o['orphans'] if x < 0]}"
     elif o.get("rayon_abort") and m["mode"] == "fork":
-        tw = twins.get((m["kind"], m["tokens"], m["threads"], m.get("at")))
+        tw = twins.get((m["kind"], m["tokens"], m["threads"], m.get("at"), m.get("do")))
         if tw is not None and isinstance(tw["rc"], int) and tw["rc"] < 0:
             signal_evidence = (f"child printed '{RAYON_ABORT}' and the --no-fork twin of this "
                                f"member died by signal {-tw['rc']}")
@@ -392,7 +392,7 @@ def main():
             if o["machinery"]:
                 chk.machinery(f"{member_label(m)}: {o['machinery']}")
             if m["mode"] == "nofork" and m.get("at"):
-                twins[(m["kind"], m["tokens"], m["threads"], m["at"])] = o
+                twins[(m["kind"], m["tokens"], m["threads"], m["at"], m["do"])] = o
             by_cfg.setdefault((m["kind"], m["tokens"], m["threads"], m["mode"]), {})[
                 (m["outcome"], m.get("k", 0))] = (m, o)
 
